@@ -2,7 +2,8 @@
 (* Observations of the real tiling functions (bamBinCounts.py, utils/binning.py) judged by the   *)
 (* P-level definitions of TilingOps.tla.  Events (raw observations, recorded by drive_tiling.py): *)
 (*  {"ev":"tile","tid","src","S","E","B","F"(-1 = None),"bl":[[s,e]..],"out":[[bs,be(,fs,fe)]..],"raised":""} *)
-(*  {"ev":"fill","tid","a","b","step","out":[[s,e]..]}                                            *)
+(*  {"ev":"fill","tid","a","b","step","out":[[s,e]..],"raised":""}                                *)
+(*  every event carries "raised": exception type name / "DoesNotTerminate", "" when the call returned *)
 (*  {"ev":"chunk","tid","bp","jobs":[[contig,s,e,..]..],"chunks":[[[contig,s,e,..]..]..]}         *)
 (*  {"ev":"trim","tid","bl","S","E","out"}   {"ev":"merge","tid","bl","out"}   (helpers: notes only) *)
 (* A tile observation that satisfies the property but differs from the design operator TileOut    *)
@@ -32,13 +33,26 @@ TileNote(line, e) ==
          THEN Note(line, e.tid, "divergence_from_design")
     ELSE TRUE
 
+(* Totality: every verdict below is defined for malformed outputs as well (inverted or empty bins,   *)
+(* tuples of the wrong length, inverted windows, empty output): shapes are tested before any field   *)
+(* is accessed, and no recursive operator is evaluated on observation-sized data.                    *)
+AllLen(q, n) == \A k \in DOMAIN q : Len(q[k]) = n
 FillV(e) == IF e.step < 1 THEN "ok"
+            ELSE IF e.raised # "" THEN "Inv_C17_Raised"
+            ELSE IF ~AllLen(e.out, 2) THEN "Inv_C17_TupleShape"
             ELSE IF P_Fill(e.a, e.b, e.step, Pairs(e.out)) THEN "ok" ELSE "Inv_C17_Fill"
 
-ChunkV(e) == IF P_Chunk(e.jobs, e.chunks) THEN "ok" ELSE "Inv_C17_Chunk"
+(* jobs are compared field by field only when the lengths agree (TLC refuses to compare a string with an integer) *)
+ChunkShapeOk(e) == LET n == IF Len(e.jobs) = 0 THEN 0 ELSE Len(e.jobs[1])
+                   IN \A c \in DOMAIN e.chunks : AllLen(e.chunks[c], n)
+ChunkV(e) == IF e.raised # "" THEN "Inv_C17_Raised"
+             ELSE IF ~ChunkShapeOk(e) THEN "Inv_C17_Chunk_job_altered"
+             ELSE IF P_Chunk(e.jobs, e.chunks) THEN "ok" ELSE "Inv_C17_Chunk"
 
 HelperNote(line, e) ==
-    IF e.ev = "trim" /\ Pairs(e.out) # Trim("design", Pairs(e.bl), e.S, e.E)
+    IF e.ev \in {"trim", "merge"} /\ e.raised # "" THEN Note(line, e.tid, "helper_raised")
+    ELSE IF e.ev \in {"trim", "merge"} /\ ~AllLen(e.out, 2) THEN Note(line, e.tid, "helper_output_malformed")
+    ELSE IF e.ev = "trim" /\ Pairs(e.out) # Trim("design", Pairs(e.bl), e.S, e.E)
     THEN Note(line, e.tid, "helper_trim_differs_from_design")
     ELSE IF e.ev = "merge" /\ Pairs(e.out) # MergeRanges(Pairs(e.bl))
     THEN Note(line, e.tid, "helper_merge_differs_from_design")
